@@ -46,6 +46,7 @@ pub fn run(lane: &str, args: &[&str]) -> (String, Option<String>) {
     match lane {
         "enc" | "parse" | "int" | "bool" | "lenhdr" => ber::run(lane, args),
         "frame" => frame::run(lane, args),
+        "bigframe" => frame::run_big(args),
         "req" => req::run(lane, args),
         "conn" => conn::run(lane, args),
         "msgid" => conn::run_msgid(args),
